@@ -213,7 +213,7 @@ theorem queueControl_inflight {o o' : Outbound} {a : ControlAction} (h : o.queue
   · simp at h
   · simp at h; subst h; exact inflight_congr rfl rfl rfl
 
-theorem queueRelease_inflight {o o' : Outbound} {id rc : Nat} (h : o.queueRelease id rc = some o') :
+theorem queueRelease_inflight {o o' : Outbound} {id rc ps : Nat} (h : o.queueRelease id rc ps = some o') :
     o'.inflightPublishes = o.inflightPublishes + 1 := by
   unfold Outbound.queueRelease at h
   split at h
